@@ -5,6 +5,7 @@ go 1.24.0
 require (
 	github.com/arr-ai/arrai v0.0.0
 	github.com/spf13/afero v1.11.0
+	gopkg.in/yaml.v3 v3.0.1
 )
 
 require (
@@ -33,7 +34,6 @@ require (
 	golang.org/x/sys v0.41.0 // indirect
 	golang.org/x/text v0.34.0 // indirect
 	google.golang.org/protobuf v1.34.2 // indirect
-	gopkg.in/yaml.v3 v3.0.1 // indirect
 )
 
 replace github.com/arr-ai/arrai => /repo
